@@ -159,6 +159,9 @@ fn sign_preds<I: SInt>(c: &Pat, obs: &mut Obs) -> Result<(), String> {
     ck!("signum", st(&a.signum()), pz::<I>(&Z::from_i64(z.signum() as i64)));
     ck!("is_positive", a.is_positive(), z.is_pos());
     ck!("is_negative", a.is_negative(), z.is_neg());
+    // sibling entry points: num_traits::Signed (anchored by C18)
+    ck!("num_traits::Signed::signum", st(&a.nt_signum()), pz::<I>(&Z::from_i64(z.signum() as i64)));
+    ck!("num_traits::Signed::is_positive / is_negative", (a.nt_is_positive(), a.nt_is_negative()), (z.is_pos(), z.is_neg()));
     Ok(())
 }
 
